@@ -19,7 +19,8 @@ def gen_case(rng):
     spec = G.gen_network(rng, kinds=("massaction",), nrx=(0, 3), nsp=(1, 3), allow_delay=(mode == "dssa"), max_order=2, integer_state=True, bounded=True, named=False)
     for rx in spec["reactions"]: rx["params"]["k"] = rng.choice([0.05, 0.1, 0.25, 0.5])
     for s in spec["x0"]: spec["x0"][s] = float(rng.randint(0, 6))
-    sp = list(spec["x0"].keys()); n = rng.randint(3, 8); dt = rng.choice([0.25, 0.5, 1.0])
+    sp = list(spec["x0"].keys()); n = rng.randint(3, 8); dt = rng.choice([0.25, 0.5, 1.0, 0.1, 0.3])     # 0.1, 0.3: grid elements with binary round-off (3*0.1 = 0.30000000000000004) -- S3_C09
+    if dt in (0.1, 0.3): n = rng.randint(5, 14)
     times = [i * dt for i in range(n)]
     rules = []; expect = []
     a = rng.choice(sp)
@@ -88,6 +89,13 @@ def driver_line(case, r):
 def compare(case, r, out):
     return R.compare(case, r, out)
 
+def _mode_label(case):
+    """the volume-aware and the lineage simulators keep their own step clock (next_queue_time += dt); on a grid whose step is no
+    exact binary fraction that clock and the grid drift apart by an ulp (known finding F20): such cases get their own site key"""
+    dt = case["times"][1] - case["times"][0]
+    inexact = case["mode"] in ("vssa", "lineage") and (dt * 64) != int(dt * 64)
+    return case["mode"] + (", inexact grid step" if inexact else "")
+
 def oracle(case, r):
     if not r or "rows" not in r: return "implementation failed: %s" % json.dumps(r)[:300]
     names = r["species"]
@@ -105,12 +113,12 @@ def oracle(case, r):
         elif e["kind"] == "counter":
             for k in range(2, len(rows)):
                 d = col(k, e["dest"]) - col(k - 1, e["dest"])
-                if abs(d - e["step"]) > 1e-9: return "per-step rule (%s): %s changes by %r between rows %d and %d, expected %r" % (case["mode"], e["dest"], d, k - 1, k, e["step"])
+                if abs(d - e["step"]) > 1e-9: return "per-step rule (%s): %s changes by %r between rows %d and %d, expected %r" % (_mode_label(case), e["dest"], d, k - 1, k, e["step"])
         elif e["kind"] == "scheduled":
             for k in range(len(rows)):
                 v = col(k, e["dest"])
-                if k < e["k"] and v != e["before"]: return "scheduled rule (%s): row %d before the scheduled time has %s = %r" % (case["mode"], k, e["dest"], v)
-                if k > e["k"] and v != e["after"]: return "scheduled rule (%s): row %d after the scheduled time has %s = %r, expected %r" % (case["mode"], k, e["dest"], v, e["after"])
+                if k < e["k"] and v != e["before"]: return "scheduled rule (%s): row %d before the scheduled time has %s = %r" % (_mode_label(case), k, e["dest"], v)
+                if k > e["k"] and v != e["after"]: return "scheduled rule (%s): row %d after the scheduled time has %s = %r, expected %r" % (_mode_label(case), k, e["dest"], v, e["after"])
     return None
 
 def nontrivial(case): return len(set(e["kind"] for e in case["expect"])) >= 2
